@@ -852,19 +852,20 @@ func (s *SystemAnalysisServiceImpl) buildDependencyMatrix(graph *analyzer.Depend
 func (s *SystemAnalysisServiceImpl) findLongestChains(graph *analyzer.DependencyGraph, limit int) []domain.DependencyPath {
 	var chains []domain.DependencyPath
 
-	// Find all paths using simple DFS
-	for moduleName := range graph.Nodes {
+	// Find all paths using simple DFS (start modules in name order: the search
+	// from each module stops after `limit` paths, so the order matters)
+	for _, moduleName := range graph.GetModuleNames() {
 		paths := s.findPathsFromModule(graph, moduleName, make(map[string]bool), []string{moduleName}, limit)
 		chains = append(chains, paths...)
 	}
 
-	// Sort by length (descending), then by first module name for deterministic results
+	// Sort by length (descending), then by the module names along the path for deterministic results
 	sort.Slice(chains, func(i, j int) bool {
 		if chains[i].Length != chains[j].Length {
 			return chains[i].Length > chains[j].Length
 		}
-		// Tie-breaker: compare first module name for deterministic results
-		return chains[i].Path[0] < chains[j].Path[0]
+		// Tie-breaker: compare the paths module by module
+		return dependencyPathLess(chains[i].Path, chains[j].Path)
 	})
 
 	// Return top chains
@@ -873,6 +874,16 @@ func (s *SystemAnalysisServiceImpl) findLongestChains(graph *analyzer.Dependency
 	}
 
 	return chains
+}
+
+// dependencyPathLess compares two paths module by module
+func dependencyPathLess(a, b []string) bool {
+	for k := 0; k < len(a) && k < len(b); k++ {
+		if a[k] != b[k] {
+			return a[k] < b[k]
+		}
+	}
+	return len(a) < len(b)
 }
 
 func (s *SystemAnalysisServiceImpl) findPathsFromModule(graph *analyzer.DependencyGraph, current string, visited map[string]bool, path []string, maxPaths int) []domain.DependencyPath {
@@ -890,7 +901,14 @@ func (s *SystemAnalysisServiceImpl) findPathsFromModule(graph *analyzer.Dependen
 		return paths
 	}
 
+	// Follow the dependencies in name order so that the same paths are found on every run
+	deps := make([]string, 0, len(node.Dependencies))
 	for dep := range node.Dependencies {
+		deps = append(deps, dep)
+	}
+	sort.Strings(deps)
+
+	for _, dep := range deps {
 		if !visited[dep] {
 			newPath := append([]string{}, path...)
 			newPath = append(newPath, dep)
